@@ -31,7 +31,8 @@
 From Coq Require Import List Bool Arith Permutation Sorted.
 From Atlas Require Import Plan.SortModel Plan.SortDfs Plan.SortReplay Plan.SortProofs Plan.SortDialect Plan.SortExamples.
 From Atlas Require Import Plan.SortTidbModel Plan.SortTidbProofs gen.Gen_TidbPriority.
-From Atlas Require Import Plan.SortObjModel Plan.SortGenProofs Plan.SortObjProofs Plan.SortObjExamples.
+From Atlas Require Import Plan.SortSqliteModel Plan.SortSqliteProofs.
+From Atlas Require Import Plan.SortObjModel Plan.SortGenProofs Plan.SortObjProofs Plan.SortObjTypes Plan.SortObjExamples.
 Import ListNotations.
 
 (** 1. "Plans never fail or loop because of a cycle": for EVERY change list -- any reference
@@ -216,8 +217,8 @@ Proof. exact gSortChanges_ranked. Qed.
       - no drop (DROP TABLE, DROP TYPE) stands before a change that is no drop -- so DROP TYPE e also stands behind an
         ALTER COLUMN that moves a column AWAY from e, for which dependsOn has no arm;
       - the table projection replays on the reference catalogue (tables and foreign keys), as in C04_safe.
-    [xplan_ok] is that conjunction.  What is NOT proved here: that the type half of the catalogue ([treplay]: a type
-    exists when used, is created once, dropped only when unused) succeeds -- see C04_safe_objects_types below. *)
+    [xplan_ok] is that conjunction.  The type half of the catalogue ([treplay]: a type exists when used, is created
+    once, dropped only when unused) is C04_safe_objects_full below. *)
 Theorem C04_safe_objects_any_tiebreak : forall X c S,
   XWF X -> consistent c (erase_all X) -> xdetach_spec X S ->
   exists out, xSortChanges S = Some out /\ xplan_ok S out c.
@@ -228,6 +229,28 @@ Theorem C04_safe_objects : forall X c,
   exists S out, xDetachCycles X = XDCOk S /\ xplan X = XPOk out /\ xplan_ok S out c.
 Proof. exact xplan_safe. Qed.
 
+(** The full statement with objects.  Reference catalogue = tables and foreign keys as before + the existing enum
+    types and the (table, type) uses; [xreplay] fails on every error of [replay] and on: CREATE TYPE of an existing type,
+    a column (CREATE TABLE, ADD COLUMN, ALTER COLUMN TYPE) of a type that does not exist at that moment, DROP TYPE of
+    a missing type, DROP TYPE while a column still uses the type.
+    [xconsistent c X] = consistent for the table half + [tconsistent]: created types are new and dropped types exist
+    (each once); a type that a change starts using is not dropped by the set and exists or is created by the set --
+    by an AddObject carrying the very type object (pointer) the column has, as in a realm; every existing use of a
+    dropped type is given up by the set (its table is dropped and lists the type object DropObject carries, or the
+    column is dropped / moved to another type).
+    For every such change set and catalogue -- any FK graph, both DetachCycles branches, any tie-break -- the plan replays. *)
+Theorem C04_types_split : forall l t0, tsplit_ok l t0 -> exists st, treplay l t0 = Some st.
+Proof. exact tsplit_replay_ok. Qed.
+
+Theorem C04_safe_objects_full_any_tiebreak : forall X c S,
+  XWF X -> xconsistent c X -> xdetach_spec X S ->
+  exists out c', xSortChanges S = Some out /\ Permutation S out /\ xreplay out c = Some c'.
+Proof. exact xreplay_safe_any_tiebreak. Qed.
+
+Theorem C04_safe_objects_full : forall X c,
+  XWF X -> xconsistent c X -> exists out c', xplan X = XPOk out /\ xreplay out c = Some c'.
+Proof. exact xreplay_safe. Qed.
+
 (** A by-product: in the cycle-free branch the order DetachCycles produces is not needed for safety -- ANY order of a
     well-formed table-only change set that respects every dependsOn edge and keeps the drops behind replays. *)
 Theorem C04_edges_suffice : forall cs c out,
@@ -236,6 +259,26 @@ Theorem C04_edges_suffice : forall cs c out,
   (forall pre x post y, out = pre ++ x :: post -> is_drop x = false -> In y pre -> is_drop y = false) ->
   exists c', replay out c = Some c'.
 Proof. intros cs c out HWF Hc Hp Hd Hb. exact (split_replay_ok out c (edge_split cs c HWF Hc out Hp Hd Hb)). Qed.
+
+(** 7. The SQLite planner (round 5): sql/sqlite/migrate.go, PlanChanges / state.plan.  It calls neither DetachCycles nor
+    SortChanges: the statements follow the change list ([sqlite_plan l] = (bracket?, l)), and the plan is bracketed by
+    PRAGMA foreign_keys = off / on exactly when it drops a table or rebuilds one (a ModifyTable that is not
+    [alterable]: everything but plain ADD COLUMN).  SQLite's catalogue ([sreplay off]): a foreign key to a table that
+    does not exist is legal; DROP TABLE of a table referenced from another table fails under enforcement (pessimistic:
+    as soon as a row references it) and is legal with enforcement off.
+    The SQLite analogue of C04_safe: for every well-formed change set IN ANY ORDER -- any reference graph, cycles
+    included -- and every consistent catalogue the plan replays: every table is created / dropped once (the plan is
+    the list), and the only order-dependent obligation SQLite has is switched off by the bracket whenever a table is
+    dropped. *)
+Theorem C04_sqlite_plan_spec : forall l,
+  snd (sqlite_plan l) = l /\
+  (fst (sqlite_plan l) = true <->
+   exists x, In x l /\ match x with AddTable _ _ => False | DropTable _ _ => True | ModifyTable _ tcs => alterable tcs = false end).
+Proof. exact sqlite_plan_spec. Qed.
+
+Theorem C04_sqlite_safe : forall cs c,
+  WF cs -> consistent c cs -> exists c', sreplay (fst (sqlite_plan cs)) (snd (sqlite_plan cs)) c = Some c'.
+Proof. exact sqlite_safe. Qed.
 
 Print Assumptions C04_total.
 Print Assumptions C04_total_parts.
@@ -260,6 +303,11 @@ Print Assumptions C04_SortChanges_generic.
 Print Assumptions C04_safe_objects_any_tiebreak.
 Print Assumptions C04_safe_objects.
 Print Assumptions C04_edges_suffice.
+Print Assumptions C04_types_split.
+Print Assumptions C04_safe_objects_full_any_tiebreak.
+Print Assumptions C04_safe_objects_full.
+Print Assumptions C04_sqlite_plan_spec.
+Print Assumptions C04_sqlite_safe.
 
 (** Non-vacuity. *)
 (* C04_total / C04_once: a 3-cycle of created tables is planned (6 changes out of 3). *)
@@ -379,4 +427,35 @@ Proof. vm_compute. repeat split; reflexivity. Qed.
 (* C04_SortChanges_generic is the statement SortChanges_ranked at A = change: the generic function is SortChanges *)
 Example C04_SortChanges_generic_ex :
   gSortChanges change dependsOn is_drop ch_cs = SortChanges ch_cs /\ gSortChanges change dependsOn is_drop c3_cs = SortChanges c3_cs.
+Proof. vm_compute. split; reflexivity. Qed.
+
+(* C04_safe_objects_full on the example: hypotheses hold, the plan replays on both halves; the input order does not *)
+Example C04_safe_objects_full_ex :
+  XWF ox_cs /\ xconsistent (mkXC ox_cat (fst ox_types) (snd ox_types)) ox_cs /\
+  xreplay ox_plan (mkXC ox_cat (fst ox_types) (snd ox_types))
+    = Some (mkXC (kcat [1; 0] [(1, 20, 0); (0, 21, 1)]) [0] [(qcode 0 1, 0); (qcode 0 0, 0)]) /\
+  xreplay ox_cs (mkXC ox_cat (fst ox_types) (snd ox_types)) = None.
+Proof. split; [exact ox_wf|]. split; [exact ox_xcons|]. vm_compute. split; reflexivity. Qed.
+
+(* C04_types_split: the obligations are met by the plan of the example *)
+Example C04_types_split_ex : tsplit_ok ox_plan ox_types.
+Proof.
+  destruct (xplan_safe ox_cs ox_cat ox_wf ox_cons) as [S [out [HS [Hp [P1 [P2 [P3 _]]]]]]].
+  rewrite (proj1 (proj2 ox_runs)) in Hp. injection Hp as <-.
+  exact (plan_tsplit ox_cs S ox_plan ox_types (xDetachCycles_spec _ _ HS) ox_tcons P1 P2 P3).
+Qed.
+
+(* round 5 -- SQLite: the selfref example (a created self-referencing table, a 2-cycle of dropped tables) in its input
+   order: bracketed, replays on the SQLite catalogue -- and would not replay without the bracket, nor does the input
+   order replay on the catalogue of the other dialects *)
+Example C04_sqlite_safe_ex :
+  WF sr_cs /\ consistent sr_cat sr_cs /\ sqlite_plan sr_cs = (true, sr_cs) /\
+  (exists c', sreplay true sr_cs sr_cat = Some c') /\ sreplay false sr_cs sr_cat = None /\ replay sr_cs sr_cat = None.
+Proof. split; [exact sr_wf|]. split; [exact sr_cons|]. vm_compute. repeat split; try reflexivity. eexists; reflexivity. Qed.
+
+(* no bracket when the plan only creates tables and adds plain columns *)
+Example C04_sqlite_plan_spec_ex :
+  sqlite_plan [AddTable (des 1) [mkFK 20 (des 1) (des 0)]; ModifyTable (des 0) [Other 2]; AddTable (des 2) []]
+  = (false, [AddTable (des 1) [mkFK 20 (des 1) (des 0)]; ModifyTable (des 0) [Other 2]; AddTable (des 2) []]) /\
+  fst (sqlite_plan [ModifyTable (des 0) [Other 1]]) = true.
 Proof. vm_compute. split; reflexivity. Qed.
